@@ -196,6 +196,21 @@ def apply_op(R, g, op, chars):
             if len(src) < 2: return g, None
             tg = src[1:] + src[:1]
         R.label('rename_column:' + kind)
+        if op.get('missing') is not None:
+            # a name that is no column of the geometry somewhere in the list: the call is refused (False or KeyError) and is
+            # then not an edit - every column still answers to the name it had
+            pos = op['missing'] % (len(src) + 1)
+            R.label('rename_column:refused-missing-name-%s' % ('first' if pos == 0 else 'later'))
+            names0 = [c.name for c in g.columnlist]
+            bad = '?' * L
+            try:
+                ok = g.rename_column(src[:pos] + [bad] + src[pos:], tg[:pos] + ['!' * L] + tg[pos:])
+            except KeyError:
+                ok = False
+            R.check(ok is False, 'rename_column:not-refused', 'rename_column with the unknown column %r returned %r' % (bad, ok))
+            R.check([c.name for c in g.columnlist] == names0, 'rename_column:refused-call-renamed-columns',
+                    'after the refused call the columns are called %r, before %r' % ([c.name for c in g.columnlist][:6], names0[:6]))
+            return g, k
         ok = g.rename_column(list(src), list(tg))
         R.check(ok is True, 'rename_column:refused', 'rename_column(%r, %r) returned %r' % (src, tg, ok))
     elif k == 'delete_column':
@@ -350,6 +365,15 @@ def apply_op(R, g, op, chars):
         other = mulgrids.mulgrid().rectangular([10.], [10.], op['dz'], origin=[0., 0., g.layerlist[0].bottom + op.get('top', 0.)], convention=g.convention)
         if len(op['dz']) > geo.layer_capacity(g.convention): return g, None
         g.copy_layers_from(other)
+        g._verif_donor = other         # the geometry the layers were copied from lives on (see 'edit_donor')
+    elif k == 'edit_donor':
+        # the two geometries are separate things after the copy: editing the donor's layers is no edit of this geometry
+        other = getattr(g, '_verif_donor', None)
+        if other is None: return g, None
+        R.label('edit_donor:' + op['how'])
+        if op['how'] == 'translate': other.translate(np.array([0., 0., float(op.get('dz', 7.5))]))
+        elif op['how'] == 'rename': other.rename_layer(other.layerlist[-1].name, 'zz'.rjust(len(other.layerlist[-1].name)))
+        else: other.layerlist[-1].bottom -= 3.0
     elif k == 'file':
         if not g.right_justified_names: return g, None
         fn = os.path.join(R.tmp, 'g.dat')
@@ -451,6 +475,9 @@ def small_alphabet(ncols, max_subset):
           {'op': 'rotate', 'angle': 30.}, {'op': 'copy_layers', 'dz': [3., 3., 5., 9.]}, {'op': 'copy_layers', 'dz': [3., 3., 5., 9.], 'top': 6.}, {'op': 'file'}, {'op': 'add_node'},
           {'op': 'delete_orphan_node'}]
     A += [{'op': 'add_duplicate', 'what': w, 'i': 0} for w in ('column', 'node', 'layer', 'well', 'connection')]
+    A += [{'op': 'edit_donor', 'how': 'translate', 'dz': 7.5}, {'op': 'edit_donor', 'how': 'rename'}, {'op': 'edit_donor', 'how': 'bottom'}]
+    A += [{'op': 'rename_column', 'cols': [0, 1], 'kind': 'swap', 'missing': 1}, {'op': 'rename_column', 'cols': [0, 1], 'kind': 'swap', 'missing': 2},
+          {'op': 'rename_column', 'cols': [1], 'kind': 'fresh', 'missing': 1}, {'op': 'rename_column', 'cols': [1], 'kind': 'fresh', 'missing': 0}]
     A.append({'op': 'add_duplicate', 'what': 'column', 'i': 1})
     for c in range(min(ncols, 3)): A.append({'op': 'readd_column', 'col': c})
     for n in range(1, ncols):
@@ -479,6 +506,8 @@ def op_strategy():
         st.builds(lambda c, b, e: {'op': 'refine', 'cols': c, 'bisect': b, 'edge': e}, few, st.sampled_from([False, False, True, 'x', 'y']), st.lists(st.integers(0, 50), min_size=1, max_size=5)),
         st.builds(lambda c, n: {'op': 'split_column', 'col': c, 'node': n}, i, i),
         st.builds(lambda c, k: {'op': 'rename_column', 'cols': c, 'kind': k}, few, st.sampled_from(['fresh', 'swap', 'cycle'])),
+        st.builds(lambda c, k, m: {'op': 'rename_column', 'cols': c, 'kind': k, 'missing': m}, few, st.sampled_from(['fresh', 'swap', 'cycle']), st.integers(0, 4)),
+        st.builds(lambda h, z: {'op': 'edit_donor', 'how': h, 'dz': z}, st.sampled_from(['translate', 'rename', 'bottom']), st.sampled_from([7.5, -4.0, 12.0])),
         st.builds(lambda c: {'op': 'delete_column', 'col': c}, i),
         st.builds(lambda e: {'op': 'add_column', 'edge': e}, i),
         st.builds(lambda c: {'op': 'readd_connection', 'con': c}, i),
